@@ -130,7 +130,9 @@ LAYOUTS = {
     ("edge", 2): [[0.0, 4.0, 8.0], [8.0, 0.0, 0.0]],
 }
 TYPES = {2: [1, 2], 3: [1, 2, 1], 4: [1, 2, 1, 2]}
-DIAMS = {"mixed": {1: 1.0, 2: 1.5}, "eq": {1: 1.0, 2: 1.0}, "tie": dict(Y.TIE_DIAM), "int": {1: 1, 2: 2}}
+DIAMS = {"mixed": {1: 1.0, 2: 1.5}, "eq": {1: 1.0, 2: 1.0}, "tie": dict(Y.TIE_DIAM), "int": {1: 1, 2: 2},
+         # one integer and one float value (the first particle's species carries the integer): a dtype inferred from the first looked-up value truncates 1.5
+         "mixint": {1: 1, 2: 1.5}}
 QCONST = {"2pi": 2 * math.pi, "5": 5.0, "0.0": 0.0, "0": 0}
 
 JOINT = {
@@ -874,7 +876,7 @@ FORM_OPTS = {
     "fortran": [{"mode": "x", "neigh": 3}, {"mode": "both", "sel": "vary"}],
     "strided": [{"mode": "x"}, {"sel": "vary", "neigh": 1}],
     "types_i32": [{"mode": "x", "sel": "type"}, {}],
-    "int_diam": [{"diam": "int"}, {"diam": "int", "cal": "fast", "mode": "x"}],
+    "int_diam": [{"diam": "int"}, {"diam": "int", "cal": "fast", "mode": "x"}, {"diam": "mixint"}, {"diam": "mixint", "cal": "fast"}],
     "ppp_bool": [{"mode": "x"}, {"mode": "both"}],
     "ppp_i32": [{"mode": "x", "neigh": 3}],
     "cond_u8": [{"sel": "vary"}, {"sel": "count", "mode": "x"}],
